@@ -194,6 +194,41 @@ type AppendV struct {
 	Spread bool
 }
 
+// ArrayLitV: array value read whole from a local whose elements were stored one by one (snapshot at the load).
+type ArrayLitV struct {
+	base
+	Elems []Val
+}
+
+func mkArrayLit(t types.Type, elems []Val) Val {
+	v := &ArrayLitV{Elems: elems}
+	v.typ = t
+	ks := make([]string, len(elems))
+	for i, e := range elems {
+		ks[i] = e.Key()
+	}
+	v.key = typeStr(t) + "[" + strings.Join(ks, ", ") + "]"
+	return v
+}
+
+// MapV: a slice built by one append per completed iteration of an exhaustive index-order loop over Coll, starting
+// from an empty slice: element k is Elem evaluated for index k ("[Elem for _ in Coll]"). Elem mentions the loop's
+// own induction value, which access-path rendering shows as [*].
+type MapV struct {
+	base
+	Coll   Val
+	Elem   Val
+	NonNil bool // the initial empty slice was non-nil
+	Loop   string
+}
+
+// MapElemV: element I of a MapV.
+type MapElemV struct {
+	base
+	M *MapV
+	I Val
+}
+
 // StructLitV: struct value assembled from per-field stores into a local (composite literal).
 type StructLitV struct {
 	base
@@ -558,6 +593,23 @@ func mkUnknown(why string, t types.Type, nonce int) Val {
 	return v
 }
 
+func mkMap(coll, elem Val, nonNil bool, loop string, t types.Type) *MapV {
+	v := &MapV{Coll: coll, Elem: elem, NonNil: nonNil, Loop: loop}
+	v.typ = t
+	v.key = "map(" + coll.Key() + " => " + elem.Key() + ")"
+	if !nonNil {
+		v.key += "?nil"
+	}
+	return v
+}
+
+func mkMapElem(m *MapV, i Val, t types.Type) Val {
+	v := &MapElemV{M: m, I: i}
+	v.typ = t
+	v.key = "mapelem(" + m.Key() + ")[" + i.Key() + "]"
+	return v
+}
+
 func mkAppend(s Val, elems []Val, spread bool, t types.Type) Val {
 	v := &AppendV{S: s, Elems: elems, Spread: spread}
 	v.typ = t
@@ -654,6 +706,12 @@ func subVals(v Val) []Val {
 		return append([]Val{x.S}, x.Elems...)
 	case *IterElemV:
 		return []Val{x.Root}
+	case *ArrayLitV:
+		return x.Elems
+	case *MapV:
+		return []Val{x.Coll, x.Elem}
+	case *MapElemV:
+		return []Val{x.M, x.I}
 	case *StructLitV:
 		var out []Val
 		for _, n := range x.Names {
